@@ -22,6 +22,7 @@ import (
 //     can ever wake them up (the harness has no timers or I/O pending);
 //   - stalled: anything else that exceeds the generous wall-clock limit; this
 //     is reported as inconclusive, never as a violation.
+//
 // heavyCase is set by cases that legitimately burn CPU on many goroutines
 // (16-way concurrent histories under the race detector); their CPU budget is 4x.
 var heavyCase atomic.Int64
